@@ -70,7 +70,7 @@ def forbidden_tokens():
     """Grep all Lean sources (comments stripped) for sorry/admit/axiom/native_decide/…"""
     hits = []
     for root, _, files in os.walk(LEAN_DIR):
-        if '.lake' in root:
+        if '.lake' in root or '/scratch' in root or '/tasks' in root:
             continue
         for f in files:
             if f.endswith('.lean'):
@@ -195,6 +195,65 @@ def lean_batch(reqs, shards=None, timeout=3000):
         if 'driver_error' in r:
             raise HarnessError('Lean driver error: %s' % r['driver_error'])
     return replies
+
+
+# --------------------------------------------------------------------------- real-code workers
+
+def run_real(pid, cases, nworkers=None, env=None, timeout=3000):
+    """Run prop.real on every case in worker subprocesses; a crash of the real code becomes
+    obs = {"err": "Crash", ...} for exactly the case that crashed."""
+    import tempfile
+    import threading
+    n = len(cases)
+    if n == 0:
+        return []
+    if nworkers is None:
+        nworkers = max(1, min(int(os.environ.get('VERIF_JOBS', '8')), n // 10000 + 1))
+    size = (n + nworkers - 1) // nworkers
+    results = [None] * n
+    tmpdir = tempfile.mkdtemp(prefix='msmverif_')
+    wenv = dict(os.environ)
+    for k in ('OMP_NUM_THREADS', 'OPENBLAS_NUM_THREADS', 'MKL_NUM_THREADS', 'NUMBA_NUM_THREADS'):
+        wenv.setdefault(k, '1' if k != 'NUMBA_NUM_THREADS' else '2')
+    if env:
+        wenv.update(env)
+
+    def work(w):
+        lo, hi = w * size, min(n, (w + 1) * size)
+        pos = lo
+        attempt = 0
+        while pos < hi:
+            attempt += 1
+            fin = os.path.join(tmpdir, 'in_%d_%d.jsonl' % (w, attempt))
+            fout = os.path.join(tmpdir, 'out_%d_%d.jsonl' % (w, attempt))
+            with open(fin, 'w') as fh:
+                for c in cases[pos:hi]:
+                    fh.write(json.dumps(c) + '\n')
+            open(fout, 'w').close()
+            try:
+                r = subprocess.run([sys.executable, '-W', 'ignore', os.path.join(HOME, 'harness', 'worker.py'), pid, fin, fout],
+                                   env=wenv, capture_output=True, text=True, timeout=timeout)
+                rc, tail = r.returncode, (r.stderr or '')[-300:]
+            except subprocess.TimeoutExpired:
+                rc, tail = -999, 'timeout'
+            lines = [l for l in open(fout).read().split('\n') if l.strip()]
+            for k, l in enumerate(lines):
+                results[pos + k] = json.loads(l)
+            pos += len(lines)
+            if pos < hi:
+                # the worker died while processing cases[pos]
+                results[pos] = {'err': 'Crash', 'msg': 'worker exit code %s: %s' % (rc, tail)}
+                pos += 1
+    ths = [threading.Thread(target=work, args=(w,)) for w in range(nworkers)]
+    for t in ths:
+        t.start()
+    for t in ths:
+        t.join()
+    import shutil
+    shutil.rmtree(tmpdir, ignore_errors=True)
+    if any(r is None for r in results):
+        raise HarnessError('worker produced no result for some cases')
+    return results
 
 
 # --------------------------------------------------------------------------- helpers for props
